@@ -73,6 +73,9 @@ fn fresh_128(host_rom: bool) -> Emu {
             .map(|p| rig::VAsset::new((0..16384).map(|i| marker_rom(p, i)).collect()).chunked(if p == 0 { 1000 } else { 16383 }))
             .collect();
         e.load_rom(rig::VRomSet { pages }).ok().expect("load_rom");
+        // this configuration also has a host I/O extender installed (claiming one unrelated port):
+        // the built-in ports must work all the same
+        e.set_io_extender(rig::VExt::new(rig::Claim::Exact(0xCCCC), 0xE7));
     }
     for b in 0..8u8 {
         rig::cpu_out(&mut e, CODE, 0x7FFD, b);
@@ -408,7 +411,7 @@ pub fn run(tier: Tier, seed: u64, replay: Option<String>) -> i32 {
     bfs_128(&ctx, &host, true);
     check_48(&ctx);
     ctx.finish(
-        "BFS from reset over the complete 128K paging state (last accepted 7FFD byte, lock, screen bank, map) with all 256 OUT values per state, each transition replayed on a fresh real Emulator (write executed by the emulated CPU; the instruction form OUT (C),A / OUT (n),A / OUTI / OUT (C),0 (for the value 0) and the port alias among 7FFD, 3FFD, 1FFD, 00FD, 7F3D, 5555 rotate with history position and value) in lock step with RefMem; in every distinct state: peek at all 65536 addresses, CPU stores/loads at 4 offsets x 4 windows with an all-banks RAM diff; embedded and host-supplied ROM sets; 48K: all 256 values x 3 port aliases x 3 instruction forms leave map and memory unchanged. distinct = distinct paging states reached",
+        "BFS from reset over the complete 128K paging state (last accepted 7FFD byte, lock, screen bank, map) with all 256 OUT values per state, each transition replayed on a fresh real Emulator (write executed by the emulated CPU; the instruction form OUT (C),A / OUT (n),A / OUTI / OUT (C),0 (for the value 0) and the port alias among 7FFD, 3FFD, 1FFD, 00FD, 7F3D, 5555 rotate with history position and value) in lock step with RefMem; in every distinct state: peek at all 65536 addresses, CPU stores/loads at 4 offsets x 4 windows with an all-banks RAM diff; embedded and host-supplied ROM sets (the latter with a host I/O extender installed that claims an unrelated port); 48K: all 256 values x 3 port aliases x 3 instruction forms leave map and memory unchanged. distinct = distinct paging states reached",
         true,
         &["marker RAM is written with execute_poke through the 0xC000 window after CPU-executed paging OUTs", "hooks: verif_paging, verif_ram_bank (read-only)"],
     )
